@@ -69,15 +69,34 @@ def _read(path: str) -> bytes | None:
         return None
 
 
+def decoy(content):
+    """A valid file of the same kind with another content: it must never be the one that is read."""
+    if isinstance(content, str):
+        return ".db 0xDE, 0xC0\n" if not content.lstrip().startswith(("0", "1", "2", "3", "4", "5", "6", "7", "8", "9")) else content[::-1]
+    return bytes(content)[::-1] + b"\xEE"
+
+
+def laid_out(files: dict | None, src: str, layout: str) -> tuple[dict, str]:
+    """layout 'cwd': the source is ./t.s; 'subdir': the source is proj/src/t.s (named relative to the working directory) and a decoy
+    of every referenced file stands next to it - quoted paths stay relative to the working directory, as for the in-memory API."""
+    all_files = dict(files or {})
+    if layout == "subdir":
+        for k, v in list(all_files.items()):
+            all_files[os.path.join("proj/src", k)] = decoy(v)
+        all_files["proj/src/t.s"] = src
+        return all_files, "proj/src/t.s"
+    all_files["t.s"] = src
+    return all_files, "t.s"
+
+
 def file_api(kind: str, src: str, files: dict | None = None, mapping: str | None = None, copier: bool = False,
-             defines: dict | None = None, want_symbols: bool = False) -> FrontResult:
+             defines: dict | None = None, want_symbols: bool = False, layout: str = "cwd") -> FrontResult:
     """kind: 'patch' -> Program.assemble_as_patch, 'sfc' -> Program.assemble (in-process)."""
     from a816.program import Program
     import inspect
 
     fr = FrontResult()
-    all_files = dict(files or {})
-    all_files["t.s"] = src
+    all_files, spath = laid_out(files, src, layout)
     with Scratch(all_files), capture_logs() as cap:
         program = Program()
         for k, v in (defines or {}).items():
@@ -85,12 +104,12 @@ def file_api(kind: str, src: str, files: dict | None = None, mapping: str | None
         out = "out.ips" if kind == "patch" else "out.sfc"
         try:
             if kind == "patch":
-                fr.status = program.assemble_as_patch("t.s", out, mapping, copier)
+                fr.status = program.assemble_as_patch(spath, out, mapping, copier)
             else:
                 if "mapping" in inspect.signature(program.assemble).parameters:
-                    fr.status = program.assemble("t.s", out, mapping)
+                    fr.status = program.assemble(spath, out, mapping)
                 else:
-                    fr.status = program.assemble("t.s", out)
+                    fr.status = program.assemble(spath, out)
         except BaseException as e:  # noqa: BLE001
             if isinstance(e, (KeyboardInterrupt, SystemExit)):
                 raise
@@ -108,8 +127,8 @@ def file_api(kind: str, src: str, files: dict | None = None, mapping: str | None
     return fr
 
 
-def cli_args(fmt: str, mapping: str | None, copier: bool, defines: list[str] | None, out: str) -> list[str]:
-    args = ["t.s", "-o", out, "-f", fmt]
+def cli_args(fmt: str, mapping: str | None, copier: bool, defines: list[str] | None, out: str, spath: str = "t.s") -> list[str]:
+    args = [spath, "-o", out, "-f", fmt]
     if mapping is not None:
         args += ["-m", mapping]
     if copier:
@@ -120,17 +139,16 @@ def cli_args(fmt: str, mapping: str | None, copier: bool, defines: list[str] | N
 
 
 def cli_inprocess(fmt: str, src: str, files: dict | None = None, mapping: str | None = None, copier: bool = False,
-                  defines: list[str] | None = None) -> FrontResult:
+                  defines: list[str] | None = None, layout: str = "cwd") -> FrontResult:
     from a816 import cli
 
     fr = FrontResult()
-    all_files = dict(files or {})
-    all_files["t.s"] = src
+    all_files, spath = laid_out(files, src, layout)
     out = "out.ips" if fmt == "ips" else "out.sfc"
     with Scratch(all_files), capture_logs() as cap:
         old_argv = sys.argv
         # `-D` takes nargs='+': the positional input file must come first
-        sys.argv = ["x816", *cli_args(fmt, mapping, copier, defines, out)]
+        sys.argv = ["x816", *cli_args(fmt, mapping, copier, defines, out, spath)]
         old_out, old_err = sys.stdout, sys.stderr
         sys.stdout, sys.stderr = io.StringIO(), io.StringIO()
         try:
@@ -154,17 +172,16 @@ def cli_inprocess(fmt: str, src: str, files: dict | None = None, mapping: str | 
 
 
 def cli_subprocess(fmt: str, src: str, files: dict | None = None, mapping: str | None = None, copier: bool = False,
-                   defines: list[str] | None = None, timeout: float = 60.0) -> FrontResult:
+                   defines: list[str] | None = None, timeout: float = 60.0, layout: str = "cwd") -> FrontResult:
     fr = FrontResult()
-    all_files = dict(files or {})
-    all_files["t.s"] = src
+    all_files, spath = laid_out(files, src, layout)
     out = "out.ips" if fmt == "ips" else "out.sfc"
     with Scratch(all_files) as sc:
         env = dict(os.environ)
         env["PYTHONPATH"] = REPO
         env.pop("A816_VERIF", None)
         try:
-            cp = subprocess.run([sys.executable, "-m", "a816.cli", *cli_args(fmt, mapping, copier, defines, out)],
+            cp = subprocess.run([sys.executable, "-m", "a816.cli", *cli_args(fmt, mapping, copier, defines, out, spath)],
                                 cwd=sc.dir, env=env, capture_output=True, text=True, timeout=timeout)
             fr.status = cp.returncode
             fr.log = cp.stdout + cp.stderr
